@@ -96,7 +96,7 @@ Theorem C20_docs_limit_and_absent :
 Proof. exact docs_limit_and_absent. Qed.
 Print Assumptions C20_docs_limit_and_absent.
 
-(* index-based access enumerates every document exactly once *)
+(* index-based access enumerates every document exactly once; paging through the buckets yields the same enumeration *)
 Theorem C20_docs_enumerates_once :
   forall c : dm_cfg,
   (0 < dm_bs c)%nat ->
@@ -107,7 +107,9 @@ Theorem C20_docs_enumerates_once :
     length l = dm_count s /\
     NoDup (names l) /\
     (forall i : N, dm_by_index c s i = of_option (nth_error l (N.to_nat i))) /\
-    (forall (nm : N) (d : doc), In (nm, d) l <-> aget N.eqb nm a = Some d).
+    (forall (nm : N) (d : doc), In (nm, d) l <-> aget N.eqb nm a = Some d) /\
+    (forall m : nat,
+     (dm_count s <= m * dm_bs c)%nat -> flat_map (fun k : nat => dm_bucket s (N.of_nat k)) (seq 0 m) = l).
 Proof. exact docs_enumerates_once. Qed.
 Print Assumptions C20_docs_enumerates_once.
 
@@ -132,7 +134,12 @@ Theorem C20_cti_refines :
   NoDup (rT a) /\
   NoDup (rI a) /\
   (forall i : N, cti_get_issuer_topics s i = (if memb N.eqb i (rI a) then Ok (rtopics a i) else Fail)) /\
-  (forall k : cti_call, is_ok (cti_step c s k) = is_ok (cti_spec c a k)).
+  (forall i : N, In i (rI a) -> NoDup (rtopics a i) /\ (forall t : N, In t (rtopics a i) -> In t (rT a))) /\
+  (forall t : N,
+   match cti_get_topic_issuers s t with
+   | Ok l => In t (rT a) /\ NoDup l /\ (forall i : N, In i l <-> In i (rI a) /\ In t (rtopics a i))
+   | Fail => ~ In t (rT a)
+   end) /\ (forall k : cti_call, is_ok (cti_step c s k) = is_ok (cti_spec c a k)).
 Proof. exact cti_refines. Qed.
 Print Assumptions C20_cti_refines.
 
@@ -165,6 +172,28 @@ Theorem C20_cti_issuer_limit :
   ~ In i (cti_issuers s) /\ (length (cti_issuers s) < cti_max_issuers c)%nat.
 Proof. exact cti_issuer_limit. Qed.
 Print Assumptions C20_cti_issuer_limit.
+
+(* claim-issuer keys: Topics(topic) and Pairs(key) are two views of ONE set of (key, topic, registry) triples *)
+Theorem C20_keys_refines :
+  forall (c : ck_cfg) (cs : list ck_call),
+  let s := run (ck_step c) ck_init cs in
+  let a := spec_run (ck_spec c) [] cs in
+  NoDup a /\
+  (forall t : N,
+   match ck_keys_for_topic s t with
+   | Ok ks => NoDup ks /\ ks <> [] /\ (forall k : N * N, In k ks <-> (exists r : N, In (k, t, r) a))
+   | Fail => forall (k : N * N) (r : N), ~ In (k, t, r) a
+   end) /\
+  (forall k : N * N,
+   ck_registries s k = match pairs_of a k with
+                       | [] => Fail
+                       | p :: l => Ok (map kt_reg (p :: l))
+                       end) /\
+  (forall (k : N * N) (t : N), ck_allowed_for_topic s k t = true <-> (exists r : N, In (k, t, r) a)) /\
+  (forall (k : N * N) (r : N), ck_allowed_for_registry s k r = true <-> (exists t : N, In (k, t, r) a)) /\
+  (forall q : ck_call, is_ok (ck_step c s q) = is_ok (ck_spec c a q)).
+Proof. exact keys_refines. Qed.
+Print Assumptions C20_keys_refines.
 
 (* claim-issuer keys: both directions of the key / topic relation agree *)
 Theorem C20_two_way_consistent_keys_topics :
@@ -291,6 +320,19 @@ Theorem C20_sa_refines :
      (forall x : N, In x (r_policies r1) <-> In x (r_policies r2)) -> r1 = r2).
 Proof. exact sa_refines. Qed.
 Print Assumptions C20_sa_refines.
+
+(* duplicate fingerprints are refused: a rule with the context type, signer SET and policy SET of a live rule (lists in any order) cannot be added *)
+Theorem C20_sa_duplicate_fingerprint_refused :
+  forall (c : sa_cfg) (cs : list sa_call) (id : N) (r : rule) (cx : ctxt) (name : N) 
+    (until : option N) (sg : list signer) (po : list (N * bool)),
+  let s := run (sa_step c) sa_init cs in
+  sa_get_rule s id = Ok r ->
+  r_ctx r = cx ->
+  (forall x : signer, In x sg <-> In x (r_signers r)) ->
+  (forall p : N, In p (map fst po) <-> In p (r_policies r)) ->
+  sa_step c s (SaAddRule cx name until sg po) = Fail.
+Proof. exact sa_duplicate_fingerprint_refused. Qed.
+Print Assumptions C20_sa_duplicate_fingerprint_refused.
 
 (* a successful add_context_rule needs room below MAX_CONTEXT_RULES *)
 Theorem C20_sa_rule_limit :
